@@ -369,7 +369,14 @@ func (p *Plugin) out(workerData *pipeline.WorkerData, batch *pipeline.Batch) err
 			if fieldVal == nil {
 				continue
 			}
-			pipeline.CreateNestedField(root, cf.toPath).MutateToNode(fieldVal)
+			target := pipeline.CreateNestedField(root, cf.toPath)
+			if fieldVal.IsObject() || fieldVal.IsArray() {
+				// the children of a container keep pointing to their parent inside "event",
+				// which cuts the encoding of the envelope short: copy containers by value
+				target.MutateToJSON(root, fieldVal.EncodeToString())
+			} else {
+				target.MutateToNode(fieldVal)
+			}
 		}
 		outBuf = root.Encode(outBuf)
 		_ = root.DecodeString("{}")
